@@ -703,9 +703,12 @@ func VerifNewWorld(op string) (*VerifWorld, string) {
 		for i, l := range w.flens {
 			if w.fileName(i) == name && !w.fpads[i] {
 				end := pos + int(off) + n // global offset of the end of the write
+				if n == 0 {
+					return false // the (empty) write into a file of length zero is never the last call of a piece
+				}
 				if end == pos+l {
 					// the file ends here: last call unless data bytes of the same piece follow in a later file
-					pieceEnd := (end + w.pl - 1) / w.pl * w.pl
+					pieceEnd := ((end-1)/w.pl + 1) * w.pl
 					q := pos + l
 					for j := i + 1; j < len(w.flens) && q < pieceEnd; j++ {
 						if !w.fpads[j] && w.flens[j] > 0 {
